@@ -22,6 +22,7 @@ type Stats struct {
 	Capped       bool
 	RacySelects  int64 // executions that passed a select with more than one ready case
 	Picks        int64 // selects with several ready cases resolved as explicit choice points
+	Unowned      int64 // replays that diverged because of nondeterminism the scheduler does not own (explored as executions of their own)
 	Retries      int64 // executions repeated because the runtime took another ready select case than scheduled
 	Unreachable  int64 // schedules given up because the scheduled select case was never taken in 400 attempts
 	RacyDiverged int64 // replays that took another branch at such a select (explored as executions of their own)
@@ -84,6 +85,10 @@ func (e *Explorer) Explore() *Stats {
 		if r.RacyAt >= 0 {
 			st.RacyDiverged++
 			honoured = r.RacyAt
+			if r.Unowned > 0 {
+				st.Unowned++
+				st.Exhaustive = false // the subtree of the recorded prefix below the divergence was not revisited
+			}
 		}
 		// children: alternatives at every point after the prefix
 		cost := 0
